@@ -368,6 +368,14 @@ def run(facts, rep, tier, ctx):
     # built below a file exists but no listing shows it
     from ..pathrules import PathRules as _PRules
     _PRules(facts, ws, D).generic_routes(_P5(rep, "R05.5g"), "G")
+    # a failed transfer leaves nothing behind: the generic copy creates the destination only once the source is open (an empty
+    # file left in a write layer over a lower directory turns that directory into a file whose children still exist)
+    from ..report import Report as _RepP
+    _scrp = _RepP("p")
+    _PRules(facts, ws, D).table_p(_scrp, "P")
+    for o in _scrp.obligations:
+        if "destination created only after the source was opened" in o["key"]:
+            rep.ob("R05.5c/R01.1", o["fn"], o["key"].split("|")[2], o["ok"], o["detail"], o["loc"])
     # R05.6
     from ..report import Report
     scratch = Report("x")
@@ -375,7 +383,7 @@ def run(facts, rep, tier, ctx):
     k = 0
     for o in scratch.obligations:
         # (for the creating operations only the row that keeps "exists iff the parent lists it": the parent is there)
-        if o["rule"] == "M" and (o["key"].split("|")[2].split(":")[0] not in ("create_dir", "create_file") or "'parent exists'" in o["key"]):
+        if o["rule"] == "M" and (o["key"].split("|")[2].split(":")[0] not in ("create_dir", "create_file") or "'parent exists'" in o["key"] or "'target is not a directory'" in o["key"]):
             k += 1
             rep.ob("R05.6", o["fn"], o["key"].split("|")[2], o["ok"], o["detail"], o["loc"])
     rep.floor("listable/readable obligations (MemoryFS)", k, 4)
@@ -431,12 +439,17 @@ def run(facts, rep, tier, ctx):
         _c04.overlay_read_delegation(facts, _P5(A, "R05.5o"), wa)
         _c10.marker_rules(facts, A, wa, prefix="R05.5m", only=("R10.5",))
         _PRules(facts, wa, D).generic_routes(_P5(A, "R05.5g"), "G")
+        _scrpa = _RepP("pa")
+        _PRules(facts, wa, D).table_p(_scrpa, "P")
+        for o in _scrpa.obligations:
+            if "destination created only after the source was opened" in o["key"]:
+                A.ob("R05.5c/R01.1", o["fn"], o["key"].split("|")[2], o["ok"], o["detail"], o["loc"])
         k += physrules.table_o_shape(facts, A, "R05.6p", wa)
         scratch = Report("xa")
         c01.table_m(facts, scratch, "M", "Mk", self_ty=wa.memory, trait="AsyncFileSystem",
                     ops_filter=("read_dir", "open_file", "create_dir", "create_file", "remove_dir", "remove_file") + c01.TWO_PATH_OPS)
         for o in scratch.obligations:
-            if o["rule"] == "M" and (o["key"].split("|")[2].split(":")[0] not in ("create_dir", "create_file") or "'parent exists'" in o["key"]):
+            if o["rule"] == "M" and (o["key"].split("|")[2].split(":")[0] not in ("create_dir", "create_file") or "'parent exists'" in o["key"] or "'target is not a directory'" in o["key"]):
                 k += 1
                 A.ob("R05.6", o["fn"], o["key"].split("|")[2], o["ok"], o["detail"], o["loc"])
         rep.floor("async-world observer obligations", k, 40)
